@@ -33,19 +33,22 @@ META = {
                    'necessary by refutation theorems whose witnesses fail on the implementation: equal __name__s (F9, open) and, new, '
                    'auto-assigned tag + first load before any dump (F23, open). The model is re-validated against the implementation on every run.'),
     'level_note': ('Trusted: Coq kernel + vm_compute; the hand-written model coq/model/TagUnion.v (field values travel unchanged: field-level '
-                   'coercions are C01/C04; all init fields required; member-level auto_assign_tags and Union members of container/dict type '
+                   'coercions are C01/C04; all init fields required; Union members of container/dict type '
                    'not modelled); the harness.'),
     'rule': ('families of 2-4 dataclasses over a 4-field pool with identical / nested / overlapping field sets; tags auto / explicit / mixed, '
              'explicit tags and tag keys drawn from a pool with quotes, backslashes, spaces, newline, non-ASCII; scalar members (int, str, '
              'bool, float, None) mixed in; Union argument order: all permutations of <= 4 arguments in thorough, sampled in quick; positions '
              'direct/Optional/list/dict/tuple/variadic tuple/list[dict]/Optional[list]; engines default and v1; dump-then-load and load-first '
-             '(documents built by the harness); plus a small stream of families with equal __name__s (region F9). distinct = distinct '
+             '(documents built by the harness); tag assignment = full product {explicit, none} x {member auto flag} x {container auto flag}; histories: '
+             'members dumped / loaded alone (both orders) before the container is first used; documents as dict / OrderedDict / defaultdict / user subclass; '
+             'plus a small stream of families with equal __name__s (region F9). distinct = distinct '
              'configuration JSON; every configuration has >= 2 look-alike members, so every one is non-trivial.'),
     'trusted_base': ['model coq/model/TagUnion.v transcribes UnionParser.__call__/__post_init__, v1 load_to_union and the member loaders\' '
                      'unknown-key handling (validated by the correspondence run)'],
     'assumptions': ['tags_injective: no two members carry the same explicit-or-auto tag (forced: tag -> loader map); v1: distinct __name__s (F9)',
                     'the tag key is not a field of a member and is configured on the class containing the Union (members do not set another one)',
-                    'auto tags come from the containing class (Meta.auto_assign_tags of the container); member-level auto_assign_tags is outside the domain',
+                    'every member carries a tag: explicit Meta.tag, or auto_assign_tags on the container and/or in the member\'s own Meta (full product; the member-only case is region F62)',
+                    'input documents are dict instances of any subclass (dict, OrderedDict, defaultdict without factory, user subclass)',
                     'scalar Union members are int/str/bool/float/None (a dict- or list-typed member captures dicts by exact type)',
                     'fresh interpreter per configuration'],
 }
